@@ -392,7 +392,9 @@ def sub (p : PixCoord α) (o : Operand α) : Except PyErr (PixCoord α) :=
       | .error e => .error e
       | .ok y => ctor x y
 
-/-- `separation`, squared: `dx = other.x - self.x; dy = other.y - self.y; hypot(dx, dy)²`. -/
+/-- `separation`, squared: `dx = np.subtract(other.x, self.x, dtype=float)`, `dy` likewise (the
+differences are formed in float64, i.e. exactly here, whatever integer dtype the arrays have),
+`hypot(dx, dy)²`. -/
 def sep2 (p q : PixCoord α) : Except PyErr (NDArr α) :=
   match ufunc (· - ·) q.x p.x with
   | .error e => .error e
@@ -402,7 +404,7 @@ def sep2 (p q : PixCoord α) : Except PyErr (NDArr α) :=
     | .ok dy => ufunc (fun a b => a * a + b * b) dx dy
 
 /-- `rotate(center, angle)` with `(c, s) = (cos angle, sin angle)`:
-`dx = self.x - center.x; dy = self.y - center.y;
+`dx = np.subtract(self.x, center.x, dtype=float); dy = np.subtract(self.y, center.y, dtype=float);
  x = center.x + (c*dx - s*dy); y = center.y + (s*dx + c*dy)`. -/
 def rotate (p center : PixCoord α) (c s : α) : Except PyErr (PixCoord α) :=
   match ufunc (· - ·) p.x center.x with
